@@ -50,6 +50,7 @@ pub fn vamm_case(c: &CurveCase, ctx: &Ctx, out: &mut Outcome) {
         if op.new_block {
             sim.next_block(15);
         }
+        let _ = super::curve::admin_churn(&mut sim, op.admin);
         let st0 = sim.state();
         let r = resolve(op, &st0, d, &seen);
         let dump0 = sim.dump();
